@@ -464,24 +464,35 @@ def pushArgs (env : Env) (i : NInfo) (retBuffer : Option Var) (args : List Arg) 
 def popGp (gp : Int) : M Unit := do
   pop (← argreg argreg64 gp)
 
+/-- load one eightbyte of a struct argument into the next SSE (`popf(fp++)`) or general-purpose
+    (`pop(argreg64[gp++])`) register -/
+def popEightbyte (isFp : Bool) (gp fp : Int) : M (Int × Int) :=
+  if isFp then do
+    popf fp.toNat
+    pure (gp, fp + 1)
+  else do
+    popGp gp
+    pure (gp + 1, fp)
+
+/-- the struct/union arm of the register-loading loop -/
+def popStruct (env : Env) (ty : Ty) (gp fp : Int) : M (Int × Int) :=
+  if ty.size > 16 then pure (gp, fp)
+  else do
+    let r ← structInRegs env ty gp fp
+    if r.1 then do
+      let f1 ← hasFlonum1 env ty
+      let gf ← popEightbyte f1 gp fp
+      if ty.size > 8 then do
+        let f2 ← hasFlonum2 env ty
+        popEightbyte f2 gf.1 gf.2
+      else pure gf
+    else pure (gp, fp)
+
 /-- one round of the register-loading loop of the `ND_FUNCALL` arm, for an argument of type `ty`
     when `gp`/`fp` registers are loaded: pops what was pushed for it, returns (gp, fp) after it -/
 def popArg (env : Env) (ty : Ty) (gp fp : Int) : M (Int × Int) :=
   match ty.kind with
-  | .struct | .union =>
-    if ty.size > 16 then pure (gp, fp)
-    else do
-      let (fits, _, _) ← structInRegs env ty gp fp
-      if fits then do
-        let f1 ← hasFlonum1 env ty
-        let (gp, fp) ← if f1 then do popf fp.toNat; pure (gp, fp + 1)
-                       else do popGp gp; pure (gp + 1, fp)
-        if ty.size > 8 then do
-          let f2 ← hasFlonum2 env ty
-          if f2 then do popf fp.toNat; pure (gp, fp + 1)
-          else do popGp gp; pure (gp + 1, fp)
-        else pure (gp, fp)
-      else pure (gp, fp)
+  | .struct | .union => popStruct env ty gp fp
   | .float | .double =>
     if fp < FP_MAX then do popf fp.toNat; pure (gp, fp + 1)
     else pure (gp, fp)
